@@ -292,14 +292,18 @@ def inline_pure_calls(fi, tree, depth=3):
     return tree
 
 
-def xexpand(fi, expr, stop=(), depth=8):
+def xexpand(fi, expr, stop=(), depth=8, pure=True):
     """A copy of `expr` with every temporary replaced by its definition
     (recursively).  Names bound by an enclosing comprehension are left alone.
-    Copied Name nodes keep the source position of the original (see `orig`)."""
+    Copied Name nodes keep the source position of the original (see `orig`).
+    With pure=False a name bound ONCE to a value with calls the analysis does
+    not know (a read of the HDF5 file) is replaced as well: the result then
+    says which expression the name stands for (evaluated once, at the
+    definition), it is not a re-evaluable expression."""
     def ex(e, d, bound):
         if isinstance(e, ast.Name):
             if d > 0 and e.id not in stop and e.id not in bound and isinstance(e.ctx, ast.Load):
-                v = _temp(fi, e)
+                v = _temp(fi, e, need_pure=pure)
                 if v is not None:
                     return ex(v, d - 1, bound)
             return ast.copy_location(ast.Name(id=e.id, ctx=e.ctx), e)
@@ -414,10 +418,10 @@ class _KW(ast.NodeTransformer):
         return node
 
 
-def X(fi, e, stop=(), lenify=False, expand=True):
+def X(fi, e, stop=(), lenify=False, expand=True, pure=True):
     """Canonical tree of an expression: temporaries expanded, library calls
     in keyword form, front-end canonical spellings."""
-    t = xexpand(fi, e, stop=stop) if expand else copy.deepcopy(e)
+    t = xexpand(fi, e, stop=stop, pure=pure) if expand else copy.deepcopy(e)
     if expand:
         t = inline_pure_calls(fi, t)
     t = _KW(lenify).visit(t)
@@ -705,6 +709,7 @@ def d1_keys(ck, mod):
         ck.missing(rule + '.node', 'store of the row into the node created by create_carray')
     else:
         s, t = st[0]
+        _every_row_written(ck, mod, fi, fn, loop, cst, s)
         full = (isinstance(t.slice, ast.Slice) and t.slice.lower is None and t.slice.upper is None and t.slice.step is None) or is_ellipsis(t.slice)
         xv = X(fi, s.value)
         # value-preserving re-layouts of the row: a freshly allocated array holding the same values
@@ -747,6 +752,61 @@ def d1_keys(ck, mod):
         ck.decide(v, 'C15.D4.dtype', mod, c, F, 'atom=%s' % u(t), 'stored element type = dtype of the flat data (ragged) / of the row',
                   'the HDF5 atom must be built from the dtype of the data that is written (array._data.dtype / array[i].dtype)')
     ck.floor('C15.D4.dtype', len(alts), 1, 'definitions of the atom')
+
+
+def _every_row_written(ck, mod, fi, fn, loop, create, store):
+    """The exits of ra.save and of its row loop: every iteration of the loop
+    over the rows creates the node of its row and fills it (no path from the
+    head of the loop body to the next iteration, out of the loop or out of the
+    function that avoids one of the two, other than a raise), and every normal
+    exit of save lies behind the loop.  Decided on the CFG: an `if ...:
+    continue`, a `break`, an early `return` that skips rows leaves the file
+    with fewer rows than the array."""
+    from ..cfg import EXIT
+    rule = 'C15.D1.key-padding.rows.every-row'
+    F = 'save'
+    inside = set()
+    for n in ast.walk(loop):
+        if n is not loop and isinstance(n, ast.stmt):
+            inside.add(n)
+    raises = [n for n in walk_local(fn) if isinstance(n, ast.Raise)]
+
+    def in_loop(n):
+        if isinstance(n, Assume):
+            return n.owner in inside
+        return n in inside
+    if not loop.body or loop.orelse:
+        ck.missing(rule, 'body of the row loop of ra.save (a loop with an else clause)')
+        return
+    skipped = None
+    for must in (create, store):
+        avoid = set(raises) | {must}
+        seen, stack = set(), [loop.body[0]]
+        while stack and skipped is None:
+            n = stack.pop()
+            if n in seen or n in avoid:
+                continue
+            seen.add(n)
+            for m in fi.cfg.succ.get(n, []):
+                if m is loop or m == EXIT or not in_loop(m):
+                    if m not in avoid:
+                        skipped = (must, n)
+                        break
+                else:
+                    stack.append(m)
+    if skipped is None:
+        ck.ok(rule, mod, loop, 'for %s in %s' % (u(loop.target), u(loop.iter)), 'every iteration creates and fills the node of its row')
+    else:
+        must, via = skipped
+        ck.bad(rule, mod, via if isinstance(via, ast.AST) else loop, F, 'an iteration of the row loop can end without `%s`' % u(must)[:80],
+               'a path through the body of the row loop (via L%s) reaches the next iteration or leaves the loop without creating / filling the node of '
+               'row i: the file then holds fewer rows than the array (and load returns other row lengths / row order than were saved)'
+               % getattr(via if isinstance(via, ast.AST) else getattr(via, 'owner', loop), 'lineno', '?'))
+    for r in returns_of(fn):
+        if fi.cfg.dominates(loop, r):
+            ck.ok(rule, mod, r, 'exit `%s` relative to the row loop' % u(r)[:60], 'save returns only after the row loop')
+        else:       # what such an exit leaves in the file is not something the rule can relate to the rows
+            ck.missing(rule, 'an exit of ra.save that can be reached without running the row loop: `%s` (%s:%s)' % (u(r)[:60], mod.rel, getattr(r, 'lineno', '?')))
 
 
 def _check_width(ck, mod, fi, fn, rule, w, ARR, loop):
@@ -846,6 +906,7 @@ def d_load(ck, mod):
         ck.missing('C15.D3.buffer', 'RaggedArray(array=<name>, lengths=<name>) in the return of ra.load: %s' % u(rcall)[:120])
         return
     ck.ok('C15.D3.buffer', mod, ret, u(ret), 'result wraps the filled buffer with the strided lengths')
+    _load_exits(ck, mod, fi, fn, ret, KEYS, STRIDE)
 
     # --- D2 lengths = [ceil(shape[0] / stride) for shape in shapes], shapes gathered over keys
     K1 = None
@@ -1080,6 +1141,61 @@ def d_load(ck, mod):
             continue
         if strided(resolve(fi, x.value)):
             ck.ok('C15.D2.stride-data', mod, x, u(x.value), 'legacy paths apply the stride')
+
+
+def _load_exits(ck, mod, fi, fn, main, KEYS, STRIDE):
+    """Every way out of ra.load with a value, other than the RaggedArray built
+    from the filled buffer, is one of the three the property allows: the two
+    old-style layouts (only when the caller passed keys=None) and the node of
+    the ONE requested key as a plain array (only when exactly one key is
+    requested).  That the stride is applied is decided by
+    C15.D2.stride-data.every-path; here: WHICH stored object comes back under
+    WHICH condition.  A one-row exit whose guard admits requests of several
+    rows is a VIOLATION, an exit the rule cannot relate to the stored nodes is
+    INCOMPLETE."""
+    rule = 'C15.D3.exits'
+    F = 'load'
+    legacy = ["RaggedArray(array=_H.get_node(where='/', name='array'), lengths=_H.get_node(where='/', name='lengths'))",
+              "_H.get_node(where='/', name='arr_0')"]
+    n = 0
+    for x in returns_of(fn):
+        if x is main:
+            continue
+        n += 1
+        txt = u(x)[:120]
+        at = '%s:%s' % (mod.rel, getattr(x, 'lineno', '?'))
+        if x.value is None:
+            ck.missing(rule, 'an exit of ra.load without a value: `%s` (%s)' % (txt, at))
+            continue
+        t = X(fi, x.value, stop=(KEYS, STRIDE), pure=False)
+        body = t
+        if isinstance(t, ast.Subscript) and isinstance(t.slice, ast.Slice) and t.slice.upper is None and \
+                (t.slice.lower is None or const_value(t.slice.lower) == 0):
+            body = t.value                                   # the stride itself: C15.D2.stride-data.every-path
+        guards = guards_of(fi, x)
+        if any(match(p, body) is not None for p in legacy):
+            ok = guarded_by(guards, lambda c: c.op is ast.Is and ((u(c.lhs) == KEYS and const_value(c.rhs, 0) is None) or
+                                                                  (u(c.rhs) == KEYS and const_value(c.lhs, 0) is None)))
+            if ok:
+                ck.ok(rule, mod, x, txt, 'old-style layout, returned only under `%s is None`' % KEYS)
+            else:
+                ck.missing(rule, 'under which condition ra.load returns the old-style layout `%s` (%s): no dominating `%s is None`' % (txt, at, KEYS))
+            continue
+        b = match("_H.get_node(where='/', name=%s[_J])" % KEYS, body)
+        if b is not None and const_value(b['_J']) in (0, -1) and not isinstance(const_value(b['_J']), bool):
+            admits = _len_guard_admits(guards, KEYS)
+            if admits is None:
+                ck.missing(rule, 'under which condition ra.load returns the single node `%s` (%s): no dominating comparison of len(%s) with a constant' % (txt, at, KEYS))
+            elif admits - {0, 1}:
+                ck.bad(rule, mod, x, F, 'rows covered by the one-node exit `%s`' % txt,
+                       'this exit returns the node of %s[%s] alone, but its guard admits requests of %s keys: the other rows (and the row '
+                       'lengths) are dropped - loading a subset of rows no longer equals slicing the full load' % (KEYS, u(b['_J']), sorted(admits - {0, 1})[:3]))
+            else:
+                ck.ok(rule, mod, x, txt, 'the one requested row as a plain array, only when exactly one key is requested')
+            continue
+        ck.missing(rule, 'an exit of ra.load the rule cannot relate to the stored nodes: `%s` (%s)' % (txt, at))
+    if n == 0:
+        ck.ok(rule, mod, main, 'exits of ra.load', 'the only way out with a value is the RaggedArray built from the filled buffer')
 
 
 _TO_NDARRAY = ('np.array', 'np.asarray', 'np.asanyarray', 'numpy.array', 'numpy.asarray')
@@ -1448,25 +1564,34 @@ def d_concat(ck, mod):
                   'another lengths list shifts every window')
         off_names = [x for x in ast.walk(offr) if isinstance(x, ast.Name) and x.id == L]
     # --- same lengths definition for buffer, offsets and return
-    r = [x for x in returns_of(fn) if x.value is not None]
-    rt = resolve(fi, r[0].value) if len(r) == 1 else None
-    if not (isinstance(rt, ast.Tuple) and len(rt.elts) == 2):
-        ck.missing(rule + '.lengths', 'single `return <lengths>, <xyz>` of load_as_concatenated')
-        r = []
-    else:
+    # the exits: the MAIN one returns (lengths, view of the shared buffer); every other way out with a
+    # value is enumerated by _other_exits (a fast path must return what the main path would)
+    rets = list(returns_of(fn))
+    r, others = [], []
+    for x in rets:
+        rt = resolve(fi, x.value) if x.value is not None else None
+        pair = isinstance(rt, ast.Tuple) and len(rt.elts) == 2
+        if pair and (len(rets) == 1 or _view_of(fi, rt.elts[1]) is not None):
+            r.append(x)
+        else:
+            others.append((x, rt))
+    if not r:
+        ck.missing(rule + '.lengths', 'the `return <lengths>, <view of the shared buffer>` of load_as_concatenated')
+    for ret in r:
+        rt = resolve(fi, ret.value)
         rl = rt.elts[0]
         if isinstance(rl, ast.Name) and rl.id == L:
-            ck.ok(rule + '.lengths', mod, r[0], u(r[0]), 'returns (lengths, xyz)')
+            ck.ok(rule + '.lengths', mod, ret, u(ret), 'returns (lengths, xyz)')
             if Lbuf is not None:
                 ok = fi.same_value(Lbuf, rl) and all(fi.same_value(Lbuf, x) for x in off_names)
-                ck.check(ok, rule + '.lengths', mod, r[0], F, 'lengths at buffer / offsets / return',
+                ck.check(ok, rule + '.lengths', mod, ret, F, 'lengths at buffer / offsets / return',
                          'one definition of lengths sizes the buffer, positions the files and is returned',
                          'the returned lengths are not the value that sized the buffer and positioned the files (e.g. rebuilt from worker '
                          'results): they need not be in file order')
         elif L in names_loaded(X(fi, rl)):
             ck.missing(rule + '.lengths', 'returned lengths are derived from `%s` in a way the rule does not follow: %s' % (L, u(rl)[:120]))
         else:
-            ck.bad(rule + '.lengths', mod, r[0], F, u(r[0]), 'load_as_concatenated must return (lengths, xyz) with the lengths that positioned the data: '
+            ck.bad(rule + '.lengths', mod, ret, F, u(ret), 'load_as_concatenated must return (lengths, xyz) with the lengths that positioned the data: '
                    'the returned lengths are not the value that sized the buffer and positioned the files (e.g. rebuilt from worker '
                    'results): they need not be in file order')
         if FS is not None and SA is not None:
@@ -1474,8 +1599,9 @@ def d_concat(ck, mod):
             if vw is None:
                 ck.missing(rule + '.lengths', 'returned coordinates are not the reshaped shared buffer: %s' % u(resolve(fi, rt.elts[1]))[:120])
             else:
-                ck.check(vw == (SA, FS), rule + '.lengths', mod, r[0], F, 'xyz = view of %s with shape %s' % vw, 'the shared buffer is returned with its full shape',
+                ck.check(vw == (SA, FS), rule + '.lengths', mod, ret, F, 'xyz = view of %s with shape %s' % vw, 'the shared buffer is returned with its full shape',
                          'the returned array must be the shared buffer reshaped to full_shape')
+    _other_exits(ck, mod, fi, fn, others, FN, ARGS, z.args[idx['args']] if idx is not None else None, guards_of(fi, fi.stmt(c)))
     # --- total check
     results = set()
     for s in walk_local(fn):
@@ -1514,8 +1640,8 @@ def d_concat(ck, mod):
         v = classify(tt, forms, scope=results | {FS, L})
         ck.decide(v, rule + '.total-check', mod, chk, F, u(tt), 'the number of frames actually written must equal the buffer length, else raise',
                   'the total-frames check must compare the sum of loaded shapes with full_shape[0] and raise on mismatch')
-        if r:
-            ck.check(fi.cfg.dominates(chk, r[0]), rule + '.total-check', mod, chk, F, 'check before return', 'check precedes the return', 'the total check must precede the return')
+        for ret in r:
+            ck.check(fi.cfg.dominates(chk, ret), rule + '.total-check', mod, chk, F, 'check before return', 'check precedes the return', 'the total check must precede the return')
     # --- worker: writes only its window
     _worker(ck, mod, rule, idx)
     # --- single-frame files: a length of 1 is inserted at the FILE index
@@ -1585,6 +1711,163 @@ def d_concat(ck, mod):
         if v[0] == 'match' and not ins:
             ck.bad(rule + '.frame-insert', mod, sm[0], F, 'no lengths.insert(i, 1)', 'single-frame files are left out of the sounding but their length 1 is never '
                    'inserted into `lengths`: lengths is shorter than the file list and every later offset is wrong')
+
+
+_TRJ_LOADS = ('md.load', 'mdtraj.load', 'md.load_frame', 'mdtraj.load_frame')
+
+
+def slice_calls(fi, e, names, depth=8):
+    """The Call nodes named in `names` in the backward slice of expression
+    `e`: in `e` itself or in a definition that reaches a name it reads
+    (data dependence through the def-use chains; the calls in between need
+    not be known or pure)."""
+    out, seen = [], set()
+
+    def visit(x, d):
+        for n in walk_expr(x):
+            if isinstance(n, ast.Call) and (call_name(n) or '') in names and n not in out:
+                out.append(n)
+            if d <= 0 or not (isinstance(n, ast.Name) and isinstance(n.ctx, ast.Load)) or n not in fi.stmt_of:
+                continue
+            try:
+                defs = fi.defs_of_use(n)
+            except Exception:
+                continue
+            for site in defs:
+                if not isinstance(site, ast.AST) or (id(site), n.id) in seen:
+                    continue
+                seen.add((id(site), n.id))
+                v = fi.def_value(site, n.id)
+                if v is None and isinstance(site, (ast.Assign, ast.AnnAssign, ast.AugAssign)):
+                    v = site.value                      # tuple unpacking of a call etc.: the whole right-hand side
+                if v is not None:
+                    visit(v, d - 1)
+    visit(e, depth)
+    return out
+
+
+def _len_guard_admits(guards, seq, sizes=range(0, 9)):
+    """The sizes n of `seq` (out of `sizes`) that the dominating guards
+    `len(seq) <op> <small constant>` admit; None when no guard talks about
+    len(seq) in that form.  (Weak-order comparisons of an integer with a
+    constant: decided by enumeration of the finite abstract domain.)"""
+    import operator as op_
+    ops = {ast.Eq: op_.eq, ast.NotEq: op_.ne, ast.Lt: op_.lt, ast.LtE: op_.le, ast.Gt: op_.gt, ast.GtE: op_.ge}
+    admitted = None
+    for test, pol in guards:
+        for c in conjuncts(test, pol) or []:
+            if not isinstance(c, Cmp) or c.op not in ops:
+                continue
+            for a, b, flip in ((c.lhs, c.rhs, False), (c.rhs, c.lhs, True)):
+                k = const_value(b)
+                if match('len(%s)' % seq, canon(copy.deepcopy(a))) is None or not isinstance(k, int) or isinstance(k, bool) or not 0 <= k <= 4:
+                    continue
+                f = ops[c.op]
+                ok = {n for n in sizes if (f(k, n) if flip else f(n, k))}
+                admitted = ok if admitted is None else admitted & ok
+    return admitted
+
+
+def _other_exits(ck, mod, fi, fn, others, FN, ARGS, args_at_map, main_guards):
+    """Every way out of load_as_concatenated WITH A VALUE other than the
+    return of (lengths, shared buffer) - a fast path, a serial fallback - must
+    return what the main path would: for the files it covers, the coordinates
+    of file i loaded with ITS entry of the normalised per-file option list
+    (`args[i]`: stride, atom selection, frame, topology - the worker's
+    `md.load(filename, **load_kwargs)`), and their lengths.  A recognised load
+    with other options (none, the function's own **kwargs, another entry) is a
+    VIOLATION; an exit the rule cannot relate to the files is INCOMPLETE."""
+    rule = 'C15.D3.parallel.exits'
+    F = 'load_as_concatenated'
+    if not others:
+        ck.ok(rule, mod, fn, 'exits of load_as_concatenated', 'the only way out with a value is the return of (lengths, view of the shared buffer)')
+        return
+    KWP = fn.args.kwarg.arg if fn.args.kwarg is not None else None
+    roles = {ARGS} | ({KWP} if KWP else set())
+    for ret, rt in others:
+        txt = u(ret)[:140]
+        at = '%s:%s' % (mod.rel, getattr(ret, 'lineno', '?'))
+        if not (isinstance(rt, ast.Tuple) and len(rt.elts) == 2):
+            ck.missing(rule, 'an exit of load_as_concatenated that does not return a (lengths, xyz) pair: `%s` (%s)' % (txt, at))
+            continue
+        lens, data = rt.elts
+        loads = slice_calls(fi, data, _TRJ_LOADS)
+        if not loads:
+            ck.missing(rule, 'what the data returned by the extra exit `%s` (%s) have to do with the files: no md.load in their backward slice' % (txt, at))
+            continue
+        # branch conditions that hold on the way to the pool map as well say nothing about this exit in particular
+        common = {(id(t), p) for t, p in main_guards}
+        guards = [g for g in guards_of(fi, ret) if (id(g[0]), g[1]) not in common]
+        verdicts = []
+        for ld in loads:
+            gs = guards + [g for g in guards_of(fi, fi.stmt(ld)) if g not in guards and (id(g[0]), g[1]) not in common]
+            narrowed = any(names_loaded(t) & roles for t, _ in gs)     # the guards select a case of the option normalisation
+            fa = ld.args[0] if ld.args and not isinstance(ld.args[0], ast.Starred) else kwarg(ld, 'filename_or_filenames')
+            fb = match('%s[_I]' % FN, X(fi, fa, stop=(FN,))) if fa is not None else None
+            named = [k for k in ld.keywords if k.arg is not None and k.arg != 'filename_or_filenames']
+            stars = [k for k in ld.keywords if k.arg is None]
+            if fb is None or call_name(ld) not in ('md.load', 'mdtraj.load') or len(ld.args) > 1:
+                verdicts.append(('far', 'which file `%s` loads' % u(ld)[:80]))
+                continue
+            i_txt = u(fb['_I'])
+            what = None
+            if not stars and not named:
+                what = 'no options at all'
+            elif len(stars) == 1 and not named:
+                e = X(fi, stars[0].value, stop=tuple(roles))
+                b = match('%s[_J]' % ARGS, e) or match('dict(%s[_J])' % ARGS, e)
+                if b is not None:
+                    j_txt = u(b['_J'])
+                    arg_names = [orig(fi, n) for n in ast.walk(e) if isinstance(n, ast.Name) and n.id == ARGS]
+                    if j_txt == i_txt:
+                        same = args_at_map is not None and all(n is not None and fi.same_value(n, args_at_map) for n in arg_names)
+                        verdicts.append(('match', None) if same else ('far', 'whether `%s` at `%s` is the normalised option list the workers get' % (ARGS, u(ld)[:80])))
+                        continue
+                    ci, cj = const_value(fb['_I']), const_value(b['_J'])
+                    if isinstance(ci, int) and isinstance(cj, int) and (ci >= 0) == (cj >= 0) and ci != cj:
+                        what = 'the options of another file (%s[%s])' % (ARGS, j_txt)
+                elif KWP is not None and isinstance(e, ast.Name) and e.id == KWP:
+                    src = orig(fi, e)
+                    if src is not None and set(fi.defs_of_use(src)) == {'PARAM'}:      # the parameter as passed, never rebound
+                        what = 'the function\'s own **%s' % KWP
+            if what is None or narrowed:
+                verdicts.append(('far', 'the options `%s` is called with' % u(ld)[:80]))
+            else:
+                verdicts.append(('near', (ld, i_txt, what)))
+        bad = [d for v, d in verdicts if v == 'near']
+        far = [d for v, d in verdicts if v == 'far']
+        for ld, i_txt, what in bad:
+            ck.bad(rule, mod, ld, F, 'options of the load on an extra exit (`%s`)' % txt,
+                   'this exit returns data loaded by `%s`: file %s[%s] with %s.  After the normalisation at the top of the function the options of '
+                   'file i are %s[i] (the caller\'s per-file list, or its **%s repeated, or {}), and that is what the parallel path hands to md.load in '
+                   'the worker; with options supplied as the `%s` list this exit drops stride / atom_indices / frame / top: it returns the '
+                   'unstrided, unselected trajectory and its full length instead of the concatenation of the individually loaded trajectories'
+                   % (u(ld)[:100], FN, i_txt, what, ARGS, KWP or 'kwargs', ARGS))
+        if bad:
+            continue
+        if far:
+            ck.missing(rule, 'the extra exit `%s` (%s): %s' % (txt, at, '; '.join(far)))
+            continue
+        # every load uses the file's own options: which files does the exit cover, and are the lengths theirs?
+        admits = _len_guard_admits(guards, FN)
+        xd = X(fi, resolve(fi, data), expand=False)
+        single = len(loads) == 1 and isinstance(xd, ast.Attribute) and xd.attr == 'xyz' and xd.value is not None and \
+            isinstance(resolve(fi, data), ast.Attribute) and resolve(fi, data).value is loads[0]
+        ci = const_value(match('%s[_I]' % FN, X(fi, loads[0].args[0], stop=(FN,)))['_I']) if single else None
+        if not single or admits is None or ci not in (0, -1):
+            ck.missing(rule, 'the extra exit `%s` (%s): which files it covers (expected: `md.load(%s[0], **%s[0]).xyz` under `len(%s) == 1`)' % (txt, at, FN, ARGS, FN))
+            continue
+        if admits - {0, 1}:
+            ck.bad(rule, mod, ret, F, 'files covered by the extra exit `%s`' % txt,
+                   'the exit returns the data of %s[%s] only, but its guard admits file lists of %s entries: the other files are dropped from the '
+                   'concatenation' % (FN, ci, sorted(admits - {0, 1})[:3]))
+            continue
+        dn = u(data) if isinstance(data, ast.Name) else None
+        dt = T(fi, data, lenify=True, expand=False)
+        forms = ['[len(%s)]' % dt, '[%s.shape[0]]' % dt, '[len(%s)]' % u(X(fi, loads[0], expand=False)), '[%s.n_frames]' % u(X(fi, loads[0], expand=False))]
+        v = classify(X(fi, lens, lenify=True, stop=(dn,) if dn else ()), forms, scope={dn} if dn else names_loaded(xd))
+        ck.decide(v, rule, mod, ret, F, 'lengths of the extra exit `%s`' % txt, 'the one file is loaded with its own options and its length is returned',
+                  'a one-file exit must return [len(xyz)] of the data it returns')
 
 
 def _worker(ck, mod, rule, idx):
@@ -1676,11 +1959,17 @@ def d_striped(ck):
         fi = finfo(mod, fn)
         ps = params(fn)
         STRIDE = ps[1] if len(ps) > 1 else 'stride'
-        rr = [x for x in returns_of(fn) if x.value is not None]
-        if len(rr) != 1 or not (isinstance(rr[0].value, ast.Tuple) and len(rr[0].value.elts) == 2 and isinstance(rr[0].value.elts[0], ast.Name)):
-            ck.missing(rule, 'single `return <global lengths>, <data>` of %s' % q)
+        # every exit returns (<global lengths>, <data>) with ONE definition of the global lengths
+        # (one return, or several that differ in the data only: if/else arms, an early return)
+        rr = list(returns_of(fn))
+        pairs = [resolve(fi, x.value) if x.value is not None else None for x in rr]
+        if not rr or not all(isinstance(p, ast.Tuple) and len(p.elts) == 2 and isinstance(p.elts[0], ast.Name) for p in pairs):
+            ck.missing(rule, '`return <global lengths>, <data>` at every exit of %s' % q)
             continue
-        GL = rr[0].value.elts[0]
+        GL = pairs[0].elts[0]
+        if not all(p.elts[0].id == GL.id and fi.same_value(GL, p.elts[0]) for p in pairs[1:]):
+            ck.missing(rule, 'one definition of the global lengths returned at every exit of %s' % q)
+            continue
         gl_of[q] = GL
         gv = resolve(fi, GL)
         gsite = fi.stmt(gv) if gv is not GL else rr[0]
